@@ -164,6 +164,16 @@ def cmd_replay(path: str) -> int:
     return 1 if rep else 0
 
 
+def _worker_init():
+    """Workers die with the driver (Linux PR_SET_PDEATHSIG): a check that is killed from outside leaves nothing running."""
+    try:
+        import ctypes
+        import signal
+        ctypes.CDLL("libc.so.6", use_errno=True).prctl(1, signal.SIGKILL)
+    except Exception:  # noqa: BLE001
+        pass
+
+
 def main(argv=None) -> int:
     ap = argparse.ArgumentParser()
     ap.add_argument("prop")
@@ -201,7 +211,7 @@ def main(argv=None) -> int:
         results = [_run_task(t) for t in tasks]
     else:
         ctx = mp.get_context("spawn")
-        with ctx.Pool(min(a.jobs, len(tasks))) as pool:
+        with ctx.Pool(min(a.jobs, len(tasks)), initializer=_worker_init) as pool:
             results = []
             for r in pool.imap(_run_task, tasks, chunksize=1):
                 results.append(r)
